@@ -8,15 +8,15 @@ CHECKS = {
  "C01": ("seqmc", "model_checking", "§8 C01, §4",
    "explicit-state BFS over operation histories on the real crate, String reference model, exact canonical state keys",
    "Every operation history over the stated alphabets (3-4 handles, chars of all four UTF-8 widths, texts straddling the inline limit, every byte index in the index profile) up to the stated depth is executed on the real crate next to std::string::String; text, length, emptiness, returned values and panics are compared after every step. Exhaustive within the bounds, so a divergence that needs a particular history (shared buffer, stale bytes, exact-16 inline) cannot hide inside the bound.",
-   "Bounded: depth, pool size, alphabet (see evidence). Reference = std String executed side by side. Native engine: 64-bit layout; the thorough tier adds the big-length exploration (texts around 2^24 bytes, every sequence of <= 2 operations) hosted by Miri for a little- and a big-endian 32-bit target (DESIGN section 15)."),
+   "Bounded: depth, pool size, alphabet (see evidence). Reference = std String executed side by side. Native engine: 64-bit layout; the big-length exploration (texts around 2^24 bytes; quick: every single operation from 20 roots, thorough: every sequence of two) runs hosted by Miri for a little- and a big-endian 32-bit target (DESIGN section 15)."),
  "C02": ("seqmc", "model_checking", "§8 C02, §4",
    "explicit-state BFS; non-target handles bit-identical before/after every step",
    "Same state graph, including failing and panicking operations; after every step every handle that was not the target must be unchanged in text, length, pointer, capacity and raw words; 'static bytes are compared with pristine copies; deep share profile (4 handles on one buffer).",
-   "Bounded as C01. Isolation under allocation failure is covered by C05's oracle."),
+   "Bounded as C01. Isolation under refused allocations and panicking callbacks: C02's own deviation passes (states to depth 2 / 3)."),
  "C03": ("seqmc", "model_checking", "§8 C03, §4.2",
    "explicit-state BFS with a shadow heap (guards, poison, quarantine) behind the crate's allocator hooks",
    "Every step of every explored history is audited against a shadow heap: reference count equals live handles, live blocks equal referenced buffers, every noted access lies inside a live block, layouts are repeated exactly, guard zones and freed-block poison are intact; every state is closed in all rotation orders and must leave nothing allocated.",
-   "Bounded as C01. Accesses are observed at the hook sites (header/as_str/as_bytes/as_slice_mut/realloc/dealloc) plus guard/poison audits for unannounced writes; a page-guard pass (reads) and, for the 32-bit-only length-on-heap layout, the big-length exploration hosted by Miri for i686 and powerpc (quick: every single operation from 17 roots; thorough: every sequence of two; DESIGN section 15)."),
+   "Bounded as C01. Accesses are observed at the hook sites (header/as_str/as_bytes/as_slice_mut/realloc/dealloc) plus guard/poison audits for unannounced writes; a page-guard pass (reads) and, for the 32-bit-only length-on-heap layout, the big-length exploration hosted by Miri for i686 and powerpc (quick: every single operation from 20 roots; thorough: every sequence of two; DESIGN section 15)."),
  "C04": ("loomc", "model_checking", "§8 C04, §5",
    "stateless model checking with loom (DPOR over all schedules and C11 visibility choices) of the real crate built with --cfg loom; heap blocks mapped to loom cells through the access hooks",
    "All programs of the listed sets (2-3 threads, 0-3 operations each from a 17-operation alphabet, 6 set-up variants incl. threads owning every reference, differing lengths on one buffer, a handle shared by reference) are explored by loom to completion (unbounded or under the stated preemption bound). Per execution: every thread reads what its own operations produce sequentially; every buffer read/write/move/release noted by the crate is ordered by happens-before (loom cell per heap block); no use after free/double free/layout mismatch; counts equal handles after the joins; nothing allocated at the end.",
@@ -26,7 +26,7 @@ CHECKS = {
    "For every stored state of the explored graph and every operation in both forms, every allocator request the operation issues is refused in turn; the outcome must be Err(ReserveError) / the documented panic / a correctly absorbed failure, the target must hold its previous value (iterator-driven calls: a prefix of the items), all other handles unchanged, reference counts consistent, every follow-up operation must behave like the model and closing must leave no block.",
    "States up to the stated depth of the wide profile + seeds; refusal = null return with the old block intact."),
  "C06": ("seqmc", "model_checking", "§8 C06",
-   "exhaustive sweep of ~700 boundary size values x entry points over every stored state of the explored graph",
+   "exhaustive sweep of ~630 boundary size values x entry points over every stored state of the explored graph",
    "Every stored state of the explored graph x every live handle x try_reserve/reserve/try_shrink_to/shrink_to/extend(size_hint) x every value of a boundary family covering 0..=usize::MAX (powers of two +-2, the 56-bit limit, isize::MAX, usize::MAX, each minus len); plus with_capacity/try_with_capacity/collect(hint). Ok must satisfy the documented postcondition; Err / clean panic must leave the exact canonical pool unchanged (texts, capacities, pointers, reference counts); follow-ups and closing must be clean.",
    "Sizes are a finite boundary family, not all 2^64 values. Requests above 1 MiB are refused by the shim instead of the OS. Thorough tier: a reduced size probe hosted by Miri for i686 and powerpc, where the size arithmetic is different code (DESIGN section 15)."),
  "C07": ("seqmc", "model_checking", "§8 C07",
@@ -39,7 +39,7 @@ CHECKS = {
    "The shim counts only the crate's own requests; lengths above 80 bytes are swept along single histories."),
  "C09": ("seqmc", "model_checking", "§8 C09",
    "explicit-state BFS of inline-only edit histories + exhaustive constructor input sweep with allocator request counting",
-   "All histories of in-place edits that stay within the inline limit (no request, storage stays inline); every constructor transition; constructor sweep over every text of the four widths up to the limit+1, every possible 16th byte, longer lengths, 10 constructors, every char, bools and every digit count of every integer type: <=16 bytes -> 0 requests and not heap, longer -> exactly one allocation with capacity == len.",
+   "All histories of in-place edits that stay within the inline limit (no request, storage stays inline); every constructor transition; constructor sweep over every text of the four widths up to the limit+1, every possible 16th byte, longer lengths, 15 constructors, every char, bools and every digit count of every integer type: <=16 bytes -> 0 requests and not heap, longer -> exactly one allocation with capacity == len.",
    "64-bit inline limit (16)."),
  "C10": ("seqmc", "model_checking", "§8 C10",
    "explicit-state BFS over handles derived from writable, harness-owned 'static buffers compared with pristine copies after every step",
@@ -67,7 +67,7 @@ CHECKS = {
    "f64 coverage is a structured family, not all 2^64 values."),
  "C16": ("enumc", "exploration", "§8 C16, §6",
    "exhaustive enumeration of byte / u16 sequences over UTF-8 / UTF-16 class alphabets up to a length bound, std decoders as reference",
-   "Every byte sequence up to length 7 (quick 6) over two 16-symbol alphabets holding a representative of every UTF-8 byte class, the same sequences around 10-17 ASCII bytes, and every u16 sequence up to length 6 over BMP/surrogate boundary values: same acceptance, same Utf8Error fields, byte-identical text as String's decoders.",
+   "Every byte sequence up to length 7 (quick 6) over two 16-symbol alphabets holding a representative of every UTF-8 byte class, the same sequences around 10-17 ASCII bytes, and every u16 sequence up to length 6 over BMP/surrogate boundary values: same acceptance, byte-identical text as String's decoders.",
    "One representative per byte class; length bound."),
  "C19": ("enumc", "exploration", "§8 C19, §6",
    "exhaustive enumeration of strings, byte inputs and Unstructured seeds with the serde and arbitrary features enabled, String / &str as reference",
@@ -84,7 +84,7 @@ CHECKS = {
  "C20": ("cfgdiff", "model_checking", "§8 C20, §7",
    "the explicit-state explorer rebuilt under 6 feature x profile configurations (+ the main build); per-level state-graph digests compared; niche/Option oracles in every state; cargo check over the 16-entry feature matrix",
    "The wide state graph is explored by seven builds of the same explorer (default / no-default-features / all features x dev / release without debug assertions, plus release with assertions) with the C01-C03 oracles on; states, transitions and the sum of state-key hashes per level must be identical across all of them; in every state every handle's last byte avoids the None niche and Some(s) round-trips; every possible 16th byte and heap/static strings of many lengths go through the Option round trip; size/alignment facts are asserted; every subset of {std, serde, arbitrary} x hooks on/off must compile.",
-   "Quick tier: the installed 64-bit little-endian target only. Thorough tier: the explorer (wide profile to depth 2, niche sweep, single-operation sweep on long texts) hosted by Miri for x86_64, i686 and powerpc64 (big-endian); 32-bit length-on-heap layout: see C01/C03."),
+   "Quick tier: the installed 64-bit little-endian target only. Thorough tier: the explorer (wide profile to depth 2, niche sweep, single-operation sweep on long texts) hosted by Miri for x86_64, i686, powerpc64 and powerpc (32-bit big-endian); 32-bit length-on-heap layout: see C01/C03."),
 }
 
 
